@@ -37,12 +37,18 @@ def gen_case(rng, name):
         c["alternatives"] = gen.labels(rng, n, gen.LABEL_POOL_A, "A", kinds=False)
         c["criteria"] = gen.labels(rng, m, gen.LABEL_POOL_C, "C", kinds=False)
         c["mode"] = "int"
+    if rng.random() < 0.25 and c.get("mode") != "float":
+        # integer-typed criteria next to float ones (values stay in the method's domain)
+        gen.integerise(rng, c, positive=all(x > 0 for r in c["matrix"] for x in r))
     n, m = len(c["matrix"]), len(c["weights"])
+    # each presentation is also BUILT its own way (mkdm, the constructor with pandas Series, alias spellings of the
+    # objectives, a selection out of a larger matrix, a copy, a dict round trip)
+    c["route1"], c["route2"] = rng.choice(I.ROUTES), rng.choice(I.ROUTES)
     pr, pc = list(range(n)), list(range(m))
     rng.shuffle(pr)
     rng.shuffle(pc)
     c["perm_r"], c["perm_c"] = pr, pc
-    c["relabel"] = rng.choice([True, True, True, False, False, "int"])
+    c["relabel"] = rng.choice([True, True, True, False, False, "int", "int"])
     c["mult"] = rng.choice([1.0, 2.0, 0.25, 8.0, 3.0, 0.7, 100.0, 1024.0, 0.001, 1e-9, 1e-12, 2.0 ** -40, 1e6, 1e12]) \
         if name in HOMOGENEOUS else 1.0
     steps = []
@@ -84,8 +90,9 @@ def second_presentation(c):
     # their sorted order nor their position
     if c["relabel"] == "int":
         na, nc = len(c["alternatives"]), len(c["criteria"])
-        amap = {str(a): (3 * k + 1) % max(na, 1) if na % 3 else 5 * k + 2 for k, a in enumerate(c["alternatives"])}
-        cmap = {str(x): (2 * k + 1) % max(nc, 1) if nc % 2 else 7 * k + 1 for k, x in enumerate(c["criteria"])}
+        # the integer codes 0..k-1, rotated: labels and positions disagree and the listing is not sorted
+        amap = {str(a): (k + 1) % max(na, 1) for k, a in enumerate(c["alternatives"])}
+        cmap = {str(x): (k + 1) % max(nc, 1) for k, x in enumerate(c["criteria"])}
         ra, rc = (lambda a: amap[str(a)]), (lambda a: cmap[str(a)])
     elif c["relabel"]:
         ra, rc = (lambda a: "alt_" + str(a)[::-1] + "_x"), (lambda a: "crit_" + str(a)[::-1])
@@ -93,6 +100,9 @@ def second_presentation(c):
         ra, rc = (lambda a: a), (lambda a: a)
     d["alternatives"] = [ra(c["alternatives"][i]) for i in pr]
     d["criteria"] = [rc(c["criteria"][j]) for j in pc]
+    if c.get("dtypes"):
+        d["dtypes"] = [c["dtypes"][j] for j in pc]
+    d["route"] = c.get("route2")
     return d, {str(ra(a)): str(a) for a in c["alternatives"]}
 
 
@@ -113,7 +123,7 @@ def evaluate(case):
 
 def both(case):
     d2, back = second_presentation(case)
-    return evaluate(case), evaluate(d2), back
+    return evaluate(dict(case, route=case.get("route1"))), evaluate(d2), back
 
 
 def exact_regime(c):
